@@ -21,20 +21,40 @@ open BM
 theorem byteswap_eq_spec (l : Bits) (f : Fmt) (s e : Option Int) (rep : Bool) (a z : Nat) (sizes : List Nat)
     (hv : validateSlice l.length s e = .ok (a, z)) (hf : fmtSizes f a z = .ok sizes)
     (hvalid : rep = true ∨ a + 8 * sizes.sum ≤ z) :
-    byteswap l f s e rep = .ok (swapSpec l sizes a z rep) := by
-  sorry
+    byteswap l f s e rep = .ok (swapSpec l sizes a z rep) :=
+  Swap.byteswap_eq_spec' l f s e rep a z sizes hv hf hvalid
 
 /-- `byteswap` raises exactly when the window or the format is rejected (no other failure in the valid region). -/
 theorem byteswap_error_iff (l : Bits) (f : Fmt) (s e : Option Int) (rep : Bool) :
     (byteswap l f s e rep).toOption = none ↔
       ((validateSlice l.length s e).toOption = none ∨
        ∃ a z, validateSlice l.length s e = .ok (a, z) ∧ (fmtSizes f a z).toOption = none) := by
-  sorry
+  cases hv : validateSlice l.length s e with
+  | error err => simp [byteswap, hv, Except.toOption]
+  | ok p =>
+    obtain ⟨a, z⟩ := p
+    cases hf : fmtSizes f a z with
+    | error err =>
+      have hb : byteswap l f s e rep = .error err := by simp only [byteswap, hv, hf]
+      rw [hb]
+      constructor
+      · intro _; exact Or.inr ⟨a, z, rfl, by rw [hf]; rfl⟩
+      · intro _; rfl
+    | ok sizes =>
+      have hb : ∃ r, byteswap l f s e rep = .ok r := by
+        simp only [byteswap, hv, hf]; split <;> exact ⟨_, rfl⟩
+      obtain ⟨r, hr⟩ := hb
+      rw [hr]
+      constructor
+      · intro h; simp [Except.toOption] at h
+      · rintro (h | ⟨a', z', h1, h2⟩)
+        · simp [Except.toOption] at h
+        · cases h1; rw [hf] at h2; simp [Except.toOption] at h2
 
 /-- One pattern application is an involution on a segment of exactly the pattern's length. -/
 theorem swapGroups_involutive (sizes : List Nat) (b : Bits) (hlen : b.length = 8 * sizes.sum) :
-    swapGroups sizes (swapGroups sizes b) = b ∧ (swapGroups sizes b).length = b.length := by
-  sorry
+    swapGroups sizes (swapGroups sizes b) = b ∧ (swapGroups sizes b).length = b.length :=
+  ⟨Swap.swapGroups_swapGroups sizes b hlen, Swap.swapGroups_length sizes b hlen⟩
 
 /-- The length never changes and nothing outside the swapped groups changes (valid region). -/
 theorem byteswap_frame (l : Bits) (f : Fmt) (s e : Option Int) (rep : Bool) (a z : Nat) (sizes : List Nat)
@@ -43,7 +63,26 @@ theorem byteswap_frame (l : Bits) (f : Fmt) (s e : Option Int) (rep : Bool) (a z
     (h : byteswap l f s e rep = .ok (k, l')) :
     l'.length = l.length ∧ l'.take a = l.take a ∧
     l'.drop (a + k * (8 * sizes.sum)) = l.drop (a + k * (8 * sizes.sum)) ∧ a + k * (8 * sizes.sum) ≤ z := by
-  sorry
+  obtain ⟨haz, hzl⟩ := Swap.validateSlice_bounds _ _ _ _ _ hv
+  by_cases htot : 8 * sizes.sum = 0
+  · rw [byteswap_eq_spec l f s e rep a z sizes hv hf hvalid] at h
+    simp only [swapSpec, htot, if_true, Except.ok.injEq, Prod.mk.injEq] at h
+    obtain ⟨rfl, rfl⟩ := h
+    simp [htot, haz]
+  · obtain ⟨hk, hl'⟩ := Swap.byteswap_struct l f s e rep a z sizes hv hf hvalid htot k l' h
+    subst hk
+    have hkb := Swap.swapCount_bound sizes a z rep haz
+    have hpre : (l.take a).length = a := by simp; omega
+    have hmid : ((l.drop a).take (Swap.swapCount sizes a z rep * (8 * sizes.sum))).length
+        = Swap.swapCount sizes a z rep * (8 * sizes.sum) := by simp; omega
+    have hmid' := Swap.swapRepeat_length (Swap.swapCount sizes a z rep) (8 * sizes.sum) sizes rfl _ hmid
+    refine ⟨?_, ?_, ?_, hkb⟩
+    · have := congrArg List.length (Swap.split3 l a (Swap.swapCount sizes a z rep * (8 * sizes.sum)))
+      rw [hl']
+      simp only [List.length_append] at this ⊢
+      rw [hmid', this]
+    · rw [hl', List.append_assoc, List.take_left' hpre]
+    · rw [hl', List.drop_left' (by rw [List.length_append, hmid', hmid, hpre])]
 
 /-- "applying it twice is the identity": for every byte-pattern format, window and repeat setting (valid region), a
     second identical call restores the original bits and reports the same count. -/
@@ -51,13 +90,25 @@ theorem byteswap_twice_id (l : Bits) (f : Fmt) (s e : Option Int) (rep : Bool) (
     (hv : validateSlice l.length s e = .ok (a, z)) (hf : fmtSizes f a z = .ok sizes)
     (hvalid : rep = true ∨ a + 8 * sizes.sum ≤ z) (k : Nat) (l' : Bits)
     (h : byteswap l f s e rep = .ok (k, l')) :
-    byteswap l' f s e rep = .ok (k, l) := by
-  sorry
+    byteswap l' f s e rep = .ok (k, l) :=
+  Swap.byteswap_twice' l f s e rep a z sizes hv hf hvalid k l' h
 
 /-- The default call on a whole-byte bit string reverses all its bytes (one application). -/
 theorem byteswap_whole (b : Bits) (h8 : b.length % 8 = 0) (hne : b ≠ []) :
     byteswap b .none none none true = .ok (1, bytesRev b) := by
-  sorry
+  have hpos : 0 < b.length := List.length_pos_iff.mpr hne
+  have hv : validateSlice b.length none none = .ok (0, b.length) := by
+    simp [validateSlice]
+  have hf : fmtSizes .none 0 b.length = .ok [b.length / 8] := rfl
+  rw [byteswap_eq_spec b .none none none true 0 b.length [b.length / 8] hv hf (Or.inl rfl)]
+  have hsum : 8 * [b.length / 8].sum = b.length := by simp; omega
+  unfold swapSpec
+  simp only [hsum, if_true, Nat.sub_zero]
+  rw [if_neg (by omega), Nat.div_self hpos]
+  simp only [swapRepeat, swapGroups, Nat.one_mul, Nat.zero_add, List.take_zero, List.drop_zero, List.nil_append]
+  have h8' : 8 * (b.length / 8) = b.length := by omega
+  rw [h8']
+  simp
 
 /-- "byteswap converts between the two encodings" (readings): after `byteswap()` the big-endian readings are the
     little-endian readings of the original and vice versa. -/
@@ -65,7 +116,12 @@ theorem byteswap_converts (b b' : Bits) (h8 : b.length % 8 = 0) (hne : b ≠ [])
     (h : byteswap b .none none none true = .ok (k, b')) :
     getuintbe b' = getuintle b ∧ getintbe b' = getintle b ∧ getuintle b' = getuintbe b ∧ getintle b' = getintbe b ∧
     getfloat true b' = getfloat false b ∧ getfloat false b' = getfloat true b := by
-  sorry
+  rw [byteswap_whole b h8 hne] at h
+  simp only [Except.ok.injEq, Prod.mk.injEq] at h
+  obtain ⟨rfl, rfl⟩ := h
+  obtain ⟨h1, h2, h3⟩ := le_eq_be_bytesRev b h8
+  obtain ⟨h4, h5, h6⟩ := be_eq_le_bytesRev b h8
+  exact ⟨h1.symm, h2.symm, h4.symm, h5.symm, h3.symm, h6.symm⟩
 
 /-- … (encodings): byte-swapping the big-endian encoding of a value gives its little-endian encoding, for every
     size, signedness and value in range. -/
@@ -73,7 +129,17 @@ theorem byteswap_converts_encoding (size : Nat) (hs : 0 < size) (signed : Bool) 
     (h : int2bitstore v (8 * size) signed = .ok be) :
     ∃ le, intle2bitstore v (8 * size) signed = .ok le ∧
       byteswap be .none none none true = .ok (1, le) ∧ byteswap le .none none none true = .ok (1, be) := by
-  sorry
+  have hlen : be.length = 8 * size := Swap.int2bitstore_length v (8 * size) signed be h
+  have h8 : be.length % 8 = 0 := by omega
+  have hne : be ≠ [] := by intro h0; rw [h0] at hlen; simp at hlen; omega
+  have hr8 : (bytesRev be).length % 8 = 0 := by rw [bytesRev_length' be h8]; exact h8
+  have hrne : bytesRev be ≠ [] := by
+    intro h0
+    have := bytesRev_length' be h8
+    rw [h0] at this; simp at this; omega
+  refine ⟨bytesRev be, ?_, byteswap_whole be h8 hne, ?_⟩
+  · unfold intle2bitstore; rw [h]
+  · rw [byteswap_whole _ hr8 hrne, bytesRev_bytesRev' be h8]
 
 /-! ### non-vacuity -/
 
